@@ -44,6 +44,9 @@ func FamilyShapeSkip(thorough bool) []*Conv {
 		add(s)
 		add(ctorByName("struct").F(g, s))
 	}
+	// the same named type (identical on both sides) at several positions of one method
+	add(shape{Src: "PFXTwS", Tgt: "PFXTwT", Name: "same_named_twice",
+		Decls: []string{"type PFXStamp struct{ Sec int64 }\ntype PFXTwS struct {\n\tCreated PFXStamp\n\tUpdated PFXStamp\n\tAll []PFXStamp\n\tN PFXTwA\n}\ntype PFXTwT struct {\n\tCreated PFXStamp\n\tUpdated PFXStamp\n\tAll []PFXStamp\n\tN PFXTwB\n}\ntype PFXTwA int\ntype PFXTwB int"}})
 	// mixed structs: one identical-typed mutable field next to a converted one
 	k := 0
 	for _, inner := range []string{"[]int", "*int", "map[string]int", "[]*int", "map[string][]int", "*[]int", "any", "chan int"} {
@@ -178,6 +181,10 @@ func FamilyUpdate(thorough bool) []*Conv {
 		fields []updField
 		skip   bool
 	}
+	setD := []updField{ // sources that are argument-less methods of the source struct
+		{"A", "int", "int", ""},
+	}
+	_ = setD
 	variants := []variant{
 		{"plain1", setA[0:4], false}, {"plain2", setA[4:7], false}, {"plain3", append(append([]updField{}, setA[0]), setA[7:]...), false},
 		{"skipcopy1", setB[0:4], true}, {"skipcopy2", append(append([]updField{}, setB[0]), setB[4:]...), true},
@@ -256,6 +263,49 @@ func FamilyUpdate(thorough bool) []*Conv {
 					out = append(out, cv)
 				}
 			}
+		}
+	}
+	// sources that are argument-less methods (getters) of the source struct
+	for cats := 0; cats < 8; cats += 1 {
+		if !thorough && cats != 0 && cats != 1 && cats != 7 {
+			continue
+		}
+		for _, srcPtr := range []bool{false, true} {
+			n++
+			u := &UpdateSpec{SkipBasic: cats&1 != 0, SkipStruct: cats&2 != 0, SkipNillable: cats&4 != 0}
+			var lines []string
+			if cats == 7 {
+				lines = []string{"update:ignoreZeroValueField"}
+			} else {
+				if u.SkipBasic {
+					lines = append(lines, "update:ignoreZeroValueField:basic")
+				}
+				if u.SkipStruct {
+					lines = append(lines, "update:ignoreZeroValueField:struct")
+				}
+				if u.SkipNillable {
+					lines = append(lines, "update:ignoreZeroValueField:nillable")
+				}
+			}
+			src := "PFXIn"
+			if srcPtr {
+				src = "*PFXIn"
+			}
+			cv := &Conv{
+				ID:      fmt.Sprintf("update/getter/c%d/ptr%v", cats, srcPtr),
+				Family:  "update",
+				Format:  []string{"struct", "function", "variable"}[n%3],
+				Params:  "target *PFXOut, source " + src,
+				Results: []string{"", "error"}[n%2],
+				Decls:   "type PFXIn struct {\n\tA int\n\tKeep int\n}\nfunc (s PFXIn) Nick() string { return \"\" }\nfunc (s PFXIn) Tags() []string { return nil }\ntype PFXOut struct {\n\tA int\n\tNick string\n\tTags []string\n\tKeep int\n\tOnly string\n}\n",
+				Spec: &Spec{Update: u, Pairs: map[string]*PairSpec{"PFXIn→PFXOut": {Fields: map[string]*FieldSpec{
+					"Keep": {Ignore: true}, "Only": {Ignore: true},
+					"Nick": {Whole: true, Fn: "PFXIn.Nick", Getter: true},
+					"Tags": {Whole: true, Fn: "PFXIn.Tags", Getter: true},
+				}}}},
+			}
+			cv.MethodLines = append([]string{"update target", "ignore Keep Only"}, lines...)
+			out = append(out, cv)
 		}
 	}
 	return out
